@@ -522,6 +522,9 @@ impl<'a> Builder<'a> {
 
     /// Call a (new or existing) subroutine. `stack_conv`: CALL/RETS, otherwise JSR|JSRR/RET.
     fn subroutine(&mut self, sub: bool, stack_conv: bool, depth: u32) {
+        if !stack_conv && self.rng.chance(1, 5) {
+            return self.inline_argument_sub(sub);
+        }
         // Re-use an existing subroutine sometimes (only from main, to keep the call graph acyclic)
         if !sub && self.rng.chance(1, 3) {
             let candidates: Vec<String> = self
@@ -666,7 +669,69 @@ impl<'a> Builder<'a> {
         });
     }
 
+    /// A slot that is a NOP when first executed and is overwritten *afterwards*: inside a loop its
+    /// second visit executes the new instruction - a plain one, or (main program, JSR
+    /// convention) a subroutine call through R4, i.e. an instruction of another class.
+    fn self_modify_revisited(&mut self, sub: bool) {
+        // (one label per statement: a label already waiting for the next statement serves)
+        let slot = match self.pending_labels.last() {
+            Some(label) => label.clone(),
+            None => {
+                let label = self.fresh("Slot");
+                self.pending_labels.push(label.clone());
+                label
+            }
+        };
+        self.emit_to(sub, ".fill x0000".to_string());
+        let callee: Option<String> = if !sub && !self.conv_stack {
+            self.callable.iter().filter(|(_, conv)| !*conv).map(|(l, _)| l.clone()).next()
+        } else {
+            None
+        };
+        let r = self.scratch();
+        match callee {
+            Some(label) => {
+                let newi = self.data_cell("New", 0x4100); // jsrr r4
+                self.emit_to(sub, format!("lea r4, {}", label));
+                self.emit_to(sub, format!("ld r{}, {}", r, newi));
+                self.feature("self_modify_into_call");
+            }
+            None => {
+                let d = self.rng.below(4) as u16;
+                let newi = self.data_cell("New", 0x1020 | (d << 9) | (d << 6) | 1); // add rd, rd, #1
+                self.emit_to(sub, format!("ld r{}, {}", r, newi));
+            }
+        }
+        self.emit_to(sub, format!("st r{}, {}", r, slot));
+        self.feature("self_modify");
+    }
+
+    /// A leaf subroutine that takes an argument from the word after the call and returns past
+    /// it (JSR convention): the return address is not the address following the call.
+    fn inline_argument_sub(&mut self, sub: bool) {
+        let label = self.fresh("Ia_");
+        let value = self.rng.interesting_u16();
+        self.emit_to(sub, format!("jsr {}", label));
+        self.emit_to(sub, format!(".fill x{:04X}", value));
+        let saved_pending = std::mem::take(&mut self.pending_labels);
+        self.sub_depth += 1;
+        self.sub_stack.push(Vec::new());
+        self.pending_labels.push(label);
+        let r = self.scratch();
+        self.emit_to(true, format!("ldr r{}, r7, #0", r));
+        self.emit_to(true, "add r7, r7, #1".to_string());
+        self.emit_to(true, "ret".to_string());
+        self.sub_depth -= 1;
+        let finished = self.sub_stack.pop().expect("subroutine buffer");
+        self.subs.extend(finished);
+        self.pending_labels = saved_pending;
+        self.feature("inline_argument_sub");
+    }
+
     fn self_modify(&mut self, sub: bool) {
+        if self.rng.chance(1, 3) {
+            return self.self_modify_revisited(sub);
+        }
         // Overwrite a later NOP slot with a pre-encoded harmless instruction
         let d = self.rng.below(4) as u16;
         let encoded: u16 = match self.rng.below(3) {
